@@ -19,10 +19,30 @@ TEST = "dewey::dewey_test"
 OP = "dewey::DeweyOp"
 
 
+_CTX = []
+
+
 def side(t):
     """'l' / 'r' / 'zero' / 'mixed' / 'other' : which version a comparison operand comes from"""
     t = strip_refs(t)
-    if is_index_call(t):
+    zi = zip_item(t)
+    if zi is not None:
+        return "l" if zi[2] == 1 else "r"
+    tf = tail_find(_CTX[0], t) if _CTX else None
+    if tf is not None:
+        return "l" if tf[1] == 1 else "r"
+    for _ in range(6):
+        # v.get(i)[.copied()] taken as Some: the element, like v[i]
+        if isinstance(t, tuple) and t and t[0] == "field" and t[2] == 0 and isinstance(t[1], tuple) and t[1][0] == "downcast" and t[1][2] == "Some" \
+                and is_call(strip_refs(t[1][1]), "Option::copied", "Option::cloned", "[T]>::get", "Vec::get"):
+            t = strip_refs(t[1][1])
+        elif is_call(t, "Option::copied", "Option::cloned"):
+            t = strip_refs(call_args(t)[0])
+        elif isinstance(t, tuple) and t and t[0] == "deref":
+            t = strip_refs(t[1])
+        else:
+            break
+    if is_index_call(t) or is_call(t, "[T]>::get", "Vec::get"):
         t = call_args(t)[0]   # the collection that is indexed, not the index
     l = mentions(t, lambda s: s == ("param", 1))
     r = mentions(t, lambda s: s == ("param", 3))
@@ -55,8 +75,126 @@ def is_min_len(t):
     return False
 
 
+def is_max_len(t):
+    t = strip_refs(t)
+    if is_call(t, "cmp::max", "Ord::max"):
+        a, b = call_args(t)[:2]
+        return (vlen(a, 1) and vlen(b, 3)) or (vlen(a, 3) and vlen(b, 1))
+    return False
+
+
+def padded_elem(t, param, p):
+    """the index i if t is `version[i], or 0 beyond the end` of the given side: the Some payload of param.version.get(i)[.copied()], or the
+    constant 0 on a path where that get(i) was None"""
+    def get_of(x):
+        x = strip_refs(x)
+        if is_call(x, "Option::copied", "Option::cloned"):
+            x = strip_refs(call_args(x)[0])
+        if is_call(x, "[T]>::get", "Vec::get") and len(call_args(x)) == 2 and \
+                mentions(call_args(x)[0], lambda s: s[0] == "field" and s[3] == "version" and strip_refs(s[1]) in (("param", param), ("deref", ("param", param)))):
+            return call_args(x)[1]
+        return None
+    t0 = strip_refs(t)
+    while isinstance(t0, tuple) and t0 and t0[0] == "deref":
+        t0 = strip_refs(t0[1])
+    if const_int(t0) == 0:
+        its = [get_of(c.term[1]) for c in p.conds() if c.term[0] == "discr" and c.fact == ("eq", 0) and get_of(c.term[1]) is not None]
+        return its[-1] if its else None
+    if isinstance(t0, tuple) and t0 and t0[0] == "field" and t0[2] == 0 and isinstance(t0[1], tuple) and t0[1][0] == "downcast" and t0[1][2] == "Some":
+        return get_of(t0[1][1])
+    return None
+
+
+def _version_of(t):
+    """1 / 3 if t is (a plain view of) param.version for the lhs / rhs parameter, else None"""
+    from lib import _iter_source
+    t = _iter_source(t)
+    if isinstance(t, tuple) and t and t[0] == "field" and t[3] == "version" and strip_refs(t[1]) in (("param", 1), ("deref", ("param", 1))):
+        return 1
+    if isinstance(t, tuple) and t and t[0] == "field" and t[3] == "version" and strip_refs(t[1]) in (("param", 3), ("deref", ("param", 3))):
+        return 3
+    return None
+
+
+def zip_item(t):
+    """(next-call, k, param) if t is component k of the pair yielded by lhs.version.iter().zip(&rhs.version) (either order of the two sides)"""
+    t = strip_refs(t)
+    while isinstance(t, tuple) and t and t[0] == "deref":
+        t = strip_refs(t[1])
+    if not (isinstance(t, tuple) and t and t[0] == "field" and t[2] in (0, 1) and isinstance(t[1], tuple) and t[1][0] == "field" and t[1][2] == 0
+            and isinstance(t[1][1], tuple) and t[1][1][0] == "downcast" and t[1][1][2] == "Some" and is_call(strip_refs(t[1][1][1]), "Zip<A, B> as std::iter::Iterator>::next")):
+        return None
+    nx = strip_refs(t[1][1][1])
+    z = [x for x in subterms(nx) if is_call(x, "Iterator::zip")]
+    if len(z) != 1:
+        return None
+    srcs = [_version_of(a) for a in call_args(z[0])[:2]]
+    if None in srcs or srcs[0] == srcs[1]:
+        return None
+    # nothing between zip() and next() but into_iter / the loop variable
+    it = strip_refs(call_args(nx)[0])
+    for _ in range(6):
+        if isinstance(it, tuple) and it and it[0] == "loc" and len(it) > 2:
+            it = strip_refs(it[2])
+        elif isinstance(it, tuple) and it and it[0] == "havoc" and len(it) > 3:
+            it = strip_refs(it[3])
+        elif is_call(it, "IntoIterator>::into_iter"):
+            it = strip_refs(call_args(it)[0])
+        else:
+            break
+    if it != z[0]:
+        return None
+    return nx, t[2], srcs[t[2]]
+
+
+def tail_find(ctx, t):
+    """(find-call, param) if t is the first non-zero component of param.version[min(len l, len r)..]: the Some payload of
+    .iter().find(|x| x != 0) over that tail"""
+    t = strip_refs(t)
+    while isinstance(t, tuple) and t and t[0] == "deref":
+        t = strip_refs(t[1])
+    if not (isinstance(t, tuple) and t and t[0] == "field" and t[2] == 0 and isinstance(t[1], tuple) and t[1][0] == "downcast" and t[1][2] == "Some"):
+        return None
+    f = strip_refs(t[1][1])
+    return (f, tail_find_call(ctx, f)) if tail_find_call(ctx, f) is not None else None
+
+
+def tail_find_call(ctx, f):
+    """param if f is  param.version[min(len l, len r)..].iter().find(|x| x != 0)"""
+    if not (is_call(f, "Iterator>::find") and len(call_args(f)) == 2):
+        return None
+    it = strip_refs(call_args(f)[0])
+    while isinstance(it, tuple) and it and it[0] == "loc" and len(it) > 2:
+        it = strip_refs(it[2])
+    if not is_call(it, "[T]>::iter", "IntoIterator>::into_iter"):
+        return None
+    sl = strip_refs(call_args(it)[0])
+    if not (is_index_call(sl) and len(call_args(sl)) == 2):
+        return None
+    side_ = _version_of(call_args(sl)[0])
+    rg = canon_range(call_args(sl)[0], call_args(sl)[1])
+    if side_ is None or rg is None or not is_min_len(rg[0]) or not (rg[1] == LEN or vlen(rg[1], side_)):
+        return None
+    clo = strip_refs(call_args(f)[1])
+    if not (isinstance(clo, tuple) and clo and clo[0] == "agg" and clo[1] == "closure"):
+        return None
+    rets = [p.end[1] for p in ret_paths(ctx.paths(clo[2]) or [])]
+    if len(rets) != 1:
+        return None
+    r = rets[0]
+
+    def arg(x):
+        x = strip_refs(x)
+        while isinstance(x, tuple) and x and x[0] == "deref":
+            x = strip_refs(x[1])
+        return x == ("param", 2)
+    nonzero = isinstance(r, tuple) and r and r[0] == "binop" and r[1] == "Ne" and ((arg(r[2]) and const_int(r[3]) == 0) or (arg(r[3]) and const_int(r[2]) == 0))
+    return side_ if nonzero else None
+
+
 def run(ctx):
     fx = ctx.fx
+    _CTX[:] = [ctx]
     # ---- CMP-2
     paths = ctx.paths(TEST)
     body = ctx.body(TEST)
@@ -99,13 +237,16 @@ def run(ctx):
     ctx.check(okr, "CMP-RET", CMP, "returns-dewey-test", "every return is a dewey_test verdict",
               "dewey_cmp has a return that is not the result of dewey_test (a constant or other expression): operator consistency is not by construction", fn_span(body))
     # call sites
+    # call sites, one per (place in the code, which sides the two operands come from): a zero-padded lock-step loop has a single place
+    # whose operands are an element or the 0 padding depending on the path
     sites = {}
     for p in paths:
         for e in p.events:
             if e.kind == "call" and e.path == TEST:
-                sites.setdefault(e.bb, []).append((e, p))
+                sites.setdefault((e.bb, side(e.args[0]), side(e.args[2])), []).append((e, p))
     ctx.floor("CMP-3", CMP, "dewey_test call sites", len(sites), 4)
-    for bb, lst in sorted(sites.items()):
+    last_bb = max(k[0] for k in sites) if sites else None
+    for (bb, _sa, _sb), lst in sorted(sites.items()):
         e0 = lst[0][0]
         a, b = e0.args[0], e0.args[2]
         sa, sb = side(a), side(b)
@@ -126,10 +267,16 @@ def run(ctx):
                 unequal_len = bool(br) and br[-1].fact in (("eq", 255), ("eq", 1))
                 # common-prefix loop, plus the zero-padding loop when the lengths differ
                 ok5 = ok5 and exhausted >= (2 if unequal_len else 1)
-            ctx.check(ok5, "CMP-5", CMP, inst + "@" + ("tail" if bb == max(sites) else "branch"), "revision compared last, after all components tied",
+                # searches for a non-zero component in a tail (`.find(|x| x != 0)`): all came back empty, and if that is how the tails are examined, both were
+                finds = [c for c in p.conds() if c.term[0] == "discr" and is_call(strip_refs(c.term[1]), "Iterator>::find")]
+                if finds:
+                    none = [tail_find_call(ctx, strip_refs(c.term[1])) for c in finds if c.fact == ("eq", 0) or (c.fact[0] == "ne" and 1 in c.fact[1])]
+                    ok5 = ok5 and len(none) == len(finds) and set(none) == {1, 3}
+            ctx.check(ok5, "CMP-5", CMP, inst + "@" + ("tail" if bb == last_bb else "branch"), "revision compared last, after all components tied",
                       "the revision comparison is reachable before every component loop on its path was exhausted (or is inside a loop)", body.span_of(bb))
             continue
-        # CMP-4
+        # CMP-4 (on every path through the site)
+        verdicts = []
         for (e, p) in lst:
             a, b = e.args[0], e.args[2]
             guard = None
@@ -162,18 +309,42 @@ def run(ctx):
                         if const_int(opd) == 0:
                             continue
                         okrng = okrng and mentions(opd, lambda s: is_index_call(s) and mentions(call_args(s)[1], lambda u: u == item))
+                    # the zero-padded lock-step spelling: one loop over 0..max(len l, len r) comparing `l.get(i) or 0` with `r.get(i) or 0`
+                    if not okrng and const_int(lo) == 0 and is_max_len(hi):
+                        ia, ib = padded_elem(a, 1, p), padded_elem(b, 3, p)
+                        payload = ("field", ("downcast", item, "Some"), 0, "0")
+                        if ia is not None and ia == ib and strip_refs(ia) == payload:
+                            okrng = True
+                            rdesc = "0..max(len l, len r), absent positions read as 0"
+            # the iterator spellings: the common prefix as lhs.version.iter().zip(&rhs.version), a tail as the first non-zero component of
+            # version[min(len l, len r)..] (searched only once the prefix is exhausted)
+            za, zb = zip_item(a), zip_item(b)
+            if za is not None and zb is not None and za[0] == zb[0] and za[1] != zb[1]:
+                okrng = any(c.term == ("discr", za[0]) and c.fact == ("eq", 1) for c in p.conds())
+                rdesc = "the pairs of lhs.version zipped with rhs.version"
+            tf = tail_find(ctx, b if sa == "zero" else a) if (sa == "zero") != (sb == "zero") else None
+            iter_tail = False
+            if tf is not None:
+                found = any(c.term == ("discr", tf[0]) and c.fact == ("eq", 1) for c in p.conds())
+                nexts = [c for c in p.conds() if c.term[0] == "discr" and is_call(strip_refs(c.term[1]), "::next")]
+                prefix_done = bool(nexts) and all(c.fact == ("eq", 0) for c in nexts)
+                okg = found          # found by `x != 0`: the guard `x != 0` is the search predicate
+                okrng = prefix_done and tf[1] == (3 if sa == "zero" else 1)
+                rdesc = "first non-zero of version[min(len l, len r)..]"
+                iter_tail = True
             # length branch for the padding loops
             okbr = True
-            if sa == "zero" or sb == "zero":
+            if (sa == "zero" or sb == "zero") and not (okrng and rdesc.startswith("0..max")) and not iter_tail:
                 br = [c for c in p.conds() if c.term[0] == "discr" and is_call(c.term[1], "::cmp")]
                 want = 255 if sa == "zero" else 1
                 okbr = bool(br) and br[-1].fact == ("eq", want) and vlen(call_args(br[-1].term[1])[0], 1) and vlen(call_args(br[-1].term[1])[1], 3)
-            ctx.check(okg and okrng and okbr, "CMP-4", CMP, inst, "guarded by a != b over %s" % rdesc,
-                      "component comparison %s vs %s: guard on the same two terms=%s, index range %s ok=%s, length branch ok=%s" % (sa, sb, okg, rdesc, okrng, okbr), body.span_of(bb))
-            break
+            verdicts.append((okg and okrng and okbr, okg, rdesc, okrng, okbr))
+        worst = sorted(verdicts, key=lambda v: v[0])[0]
+        ctx.check(worst[0], "CMP-4", CMP, inst, "guarded by a != b over %s (%d path(s))" % (worst[2], len(verdicts)),
+                  "component comparison %s vs %s: guard on the same two terms=%s, index range %s ok=%s, length branch ok=%s" % (sa, sb, worst[1], worst[2], worst[3], worst[4]), body.span_of(bb))
     # the three loops exist (prefix, lhs-shorter, lhs-longer)
     kinds = set()
-    for bb, lst in sites.items():
+    for (bb, _sa, _sb), lst in sites.items():
         e0 = lst[0][0]
         if not (is_rev(e0.args[0]) or is_rev(e0.args[2])):
             kinds.add((side(e0.args[0]), side(e0.args[2])))
